@@ -462,7 +462,7 @@ func (w *world) digestTree() (string, *fsx.Snap) {
 
 func (p C05) runConc(c *sim.Ctx, t *sim.Tape) sim.RunResult {
 	filtered := !t.Chance(100)
-	cfg := genConc(t, []string{"memfs", "orefafs"}, 4, 3, true)
+	cfg := genConc(t, []string{"memfs", "orefafs"}, 3+deeper(c, t), 2+deeper(c, t), true)
 
 	if filtered {
 		dropKnownPairs(c, cfg, "C05")
